@@ -250,6 +250,49 @@ def run(rep):
                               dict(dataset=k, index=list(g.dset[k]).index(pt) if False else None, bad=str(bad)))
     rep.coverage['bundled_points_checked'] = nb
 
+    # ---------------- whole datasets, converted back and forth point after point ----------------
+    # the points of one dataset share their units / newunits dictionaries (as loading creates them): converting one
+    # point must not change what its siblings do
+    keys = sorted(g.dset)
+    phisets = [k for k in keys if len(g.dset[k]) > 1 and 'phi' in g.dset[k][0]]
+    chosen = (rng.sample(phisets, min(6, len(phisets))) + rng.sample(keys, 6)) if quick else keys
+    for k in chosen:
+        ds = g.dset[k]
+        if not len(ds):
+            continue
+        copies = [pt.copy() for pt in ds]
+        for attr in ('newunits', 'units'):
+            if attr in ds[0]:
+                shared = dict(ds[0][attr])
+                for c in copies:
+                    setattr(c, attr, shared)
+        bad = []
+        try:
+            for i, (c, pt) in enumerate(zip(copies, ds)):
+                c.from_conventions()
+                if 'origval' in pt and not close(c.val, pt.origval, 4):
+                    bad.append((i, 'val after from_conventions', c.val, pt.origval))
+                if 'phi' in pt and pt.get('units', {}).get('phi', '')[:3] == 'deg':
+                    want = pt.phi / math.pi * 180.
+                    if pt.get('frame') == 'Trento':
+                        want = (math.pi - pt.phi) / math.pi * 180.
+                    if not aclose(c.phi / 180. * math.pi, want / 180. * math.pi, 8):
+                        bad.append((i, 'phi [deg] after from_conventions', c.phi, want))
+            for i, (c, pt) in enumerate(zip(copies, ds)):
+                c.to_conventions()
+                for a in ('val', 'phi', 'varphi'):
+                    if a in pt and not (close if a == 'val' else aclose)(c[a], pt[a], 6):
+                        bad.append((i, 'to(from(%s))' % a, c[a], pt[a]))
+        except Exception as e:
+            bad.append((None, 'exception', type(e).__name__, str(e)[:100]))
+        rep.case('bundled-set', k, nontrivial=True, sample=dict(dataset=k, points=len(ds)) if k == chosen[0] else None)
+        if bad:
+            rep.violation('bundled-set/%s' % bad[0][1].split(' ')[0],
+                          'dataset %s, all points converted with from_conventions one after another and then back with '
+                          'to_conventions: point %s: %s is %r, expected %r (%d such deviations)' % (
+                              k, bad[0][0], bad[0][1], bad[0][2], bad[0][3], len(bad)),
+                          dict(dataset=k, deviations=str(bad[:6])))
+
     # ---------------- model vs code ----------------
     out = common.run_driver(lines)
     for line, m, o in zip(lines, meta, out):
